@@ -103,8 +103,10 @@ def gen_key(rng, hostile):
     return rng.choice(PLAIN_KEYS)
 
 
-def gen_doc(rng, depth, hostile=False):
+def gen_doc(rng, depth, hostile=False, root=False):
     r = rng.random()
+    if root and r < 0.25:
+        r = 0.25 + 0.7 * rng.random()          # the root is a scalar only rarely
     if depth <= 0 or r < 0.25:
         return gen_scalar(rng)
     if r < 0.65:
@@ -183,12 +185,12 @@ def edit_once(rng, doc, hostile):
 
 def gen_pair(rng):
     hostile = rng.random() < 0.06
-    a = gen_doc(rng, rng.choice([1, 2, 3, 4]), hostile)
+    a = gen_doc(rng, rng.choice([1, 2, 3, 4]), hostile, root=rng.random() < 0.93)
     r = rng.random()
     if r < 0.08:
         return a, copy.deepcopy(a), ["identical"]
     if r < 0.2:
-        return a, gen_doc(rng, rng.choice([1, 2, 3]), hostile), ["independent"]
+        return a, gen_doc(rng, rng.choice([1, 2, 3]), hostile, root=True), ["independent"]
     b, kinds = a, []
     for _ in range(rng.choice([1, 1, 2, 3, 5])):
         b, k = edit_once(rng, b, hostile)
@@ -948,7 +950,7 @@ def collect(ctx, results, name):
 
 def run(ctx):
     rng = ctx.rng
-    n_pairs = 400 if ctx.thorough else 70
+    n_pairs = 500 if ctx.thorough else 120
     n_all = 24 if ctx.thorough else 2
     n_pairs_mode = 80 if ctx.thorough else 8
     tasks = []
